@@ -1016,6 +1016,18 @@ pub mod verif {
     do_remapping_loop_one_device(&mut adapter, layout, false)
   }
   
+  // The real driver (mio poll, DevInputReader, DevInputWriter, TabletModeSwitchReader) over
+  // file descriptors supplied by the caller instead of /dev/input and /dev/uinput.
+  pub fn run_real_driver(keyboard_fd: std::os::unix::io::RawFd, writer: DevInputWriter, tablet_fd: Option<std::os::unix::io::RawFd>, layout: Layout) -> Result<(), String> {
+    let rw = RW {
+      r: DevInputReader { fd: keyboard_fd },
+      w: writer,
+      t: tablet_fd.map(|fd| TabletModeSwitchReader { fd })
+    };
+    let mut driver = RealDriver { rw };
+    do_remapping_loop_one_device(&mut driver, layout, false)
+  }
+  
   pub fn flag_excluded_keyboards(devices: Vec<ExtractedKeyboard>, excludes: &[&str]) -> Vec<(ExtractedKeyboard, bool)> {
     flag_excluded(devices, excludes).into_iter().map(|d| (d.extracted_keyboard, d.excluded)).collect()
   }
